@@ -680,6 +680,7 @@ func runC02(r *Run) {
 	r.Cases(300000, r.N(160, 2500), 0, func(c *Case, rng *Rng) { c02MultiCase(c, rng) })
 	r.Cases(400000, r.N(150, 1500), 0, func(c *Case, rng *Rng) { c02CfgCase(c, rng) })
 	r.Cases(200000, r.N(150, 2000), 0, func(c *Case, rng *Rng) { c02ConcCase(c, rng) })
+	r.Cases(500000, r.N(100, 1200), 0, func(c *Case, rng *Rng) { c02RestartCase(c, rng) })
 	if r.Thorough() {
 		runC02Exhaustive(r)
 	}
